@@ -73,6 +73,10 @@ func (p *Parser) ParsePackages(ctx context.Context, packageNames []string) ([]*c
 				ifaceLog := fileLog.With().Str("interface", declaredInterface).Logger()
 
 				obj := scope.Lookup(declaredInterface)
+				if obj == nil {
+					ifaceLog.Debug().Msg("type is not declared in package scope, skipping")
+					continue
+				}
 
 				typ, ok := obj.Type().(*types.Named)
 				if !ok {
